@@ -29,7 +29,7 @@ pub proof fn lemma_round_facts(s: bool, w: int, b: int, f: int)
         &&& one > 0 &&& fl <= b < fl + one &&& 0 <= r < one &&& fl == (b / one) * one
         &&& (r == 0 ==> ce == fl) &&& (r != 0 ==> ce == fl + one)
         &&& (f < w ==> fits(s, w, fl) && wrap(s, w, fl) == fl)
-        &&& (f == w ==> (fl == (if b < 0 { -p2(w) } else { 0 }) && wrap(s, w, fl) == 0 && (!fits(s, w, fl) <==> b < 0)
+        &&& (f == w ==> (b / one == (if b < 0 { -1int } else { 0int }) && fl == (if b < 0 { -p2(w) } else { 0 }) && wrap(s, w, fl) == 0 && (!fits(s, w, fl) <==> b < 0)
                          && wrap(s, w, fl + one) == 0 && (!fits(s, w, fl + one) <==> b >= 0)))
         &&& (s && f == w - 1 ==> wrap(s, w, one) == -one && !fits(s, w, one))
         &&& ((s && f < w - 1) || (!s && f < w) ==> wrap(s, w, one) == one && fits(s, w, one))
